@@ -83,9 +83,16 @@ type rsgen struct {
 	pkg    *packages.Package
 	info   *types.Info
 	consts map[string]string
+	// the three fields below are set by other users of the step translator (stacking.go); zero = RunSkeleton
+	pure        map[string]bool // calls allowed nested inside an expression (nil = pureCalls)
+	failNote    string          // "<Generator>: " prefix and trailing hint of fail (empty = RunSkeleton's)
+	localConsts bool            // also record integer constants of the translated package named by a bare identifier
 }
 
 func (g *rsgen) fail(n ast.Node, f string, a ...any) {
+	if g.failNote != "" {
+		die("%s", fmt.Sprintf(g.failNote, g.src.pos(n), fmt.Sprintf(f, a...)))
+	}
 	die("RunSkeleton: %s: %s\n  (pkg/simulation/{run,action,death}.go left the shapes the run-skeleton translator recognises; see the head of harness/cmd/go2coq/runskel.go)",
 		g.src.pos(n), fmt.Sprintf(f, a...))
 }
@@ -127,7 +134,13 @@ func (g *rsgen) walkExpr(e ast.Expr, inLitField bool) {
 	case *ast.SelectorExpr:
 		g.noteConst(x)
 		g.walkExpr(x.X, false)
-	case *ast.Ident, *ast.BasicLit:
+	case *ast.Ident:
+		if g.localConsts {
+			if c, ok := g.info.Uses[x].(*types.Const); ok && c.Pkg() == g.pkg.Types && c.Val().Kind() == constant.Int {
+				g.consts[x.Name] = c.Val().ExactString()
+			}
+		}
+	case *ast.BasicLit:
 	case *ast.BinaryExpr:
 		g.walkExpr(x.X, false)
 		g.walkExpr(x.Y, false)
@@ -183,6 +196,9 @@ func (g *rsgen) calleeName(c *ast.CallExpr) (name string, pure bool) {
 	case *types.Builtin:
 		return o.Name(), true
 	case *types.Func:
+		if g.pure != nil {
+			return o.FullName(), g.pure[o.FullName()]
+		}
 		return o.FullName(), pureCalls[o.FullName()]
 	}
 	return g.text(c.Fun), false
